@@ -3,4 +3,4 @@ from . import classlaws
 
 
 def build(repo, tier, seed):
-    return classlaws.bundle(repo, tier, seed, ("L6", "L6v"), classes=classlaws.READY + ["Dataset"])
+    return classlaws.bundle(repo, tier, seed, ("L6", "L6k", "L6v"), classes=classlaws.READY + ["Dataset"])
